@@ -453,7 +453,9 @@ def run(tier: str) -> int:
             attempt = rnd.choice([1, 1, 2, 5])
             extra = ["--run-space-attempt", str(attempt)]
             if mode == "explicit":
-                extra += ["--run-space-launch-id", f"launch-{i}-{rnd.randrange(10**6)}"]
+                requested_id = rnd.choice(["launch-{n}", "nightly sweep #{n}", "exp:2026-10-01T02:00:00Z+{n}", "team/alice@cluster-{n}", "läuf-{n}", "L{n}"]) \
+                    .format(n=f"{i}-{rnd.randrange(10**6)}")
+                extra += ["--run-space-launch-id", requested_id]
             elif mode == "idempotency":
                 extra += ["--run-space-idempotency-key", f"key-{i}"]
             plan = plan_of(rs, d)
@@ -512,6 +514,9 @@ def run(tier: str) -> int:
             rs_start = next((r for r in recs if r.get("record_type") == "run_space_start"), None)
             rs_end = next((r for r in recs if r.get("record_type") == "run_space_end"), None)
             launch_id = rs_start.get("run_space_launch_id") if rs_start else None
+            if mode == "explicit" and rs_start and launch_id != requested_id:
+                rep.add_violation("explicit-launch-id-not-verbatim", "the launch is recorded under another id than the one given with --run-space-launch-id",
+                                  dict(pub, requested=requested_id, recorded=launch_id))
             runs = split_runs(recs)
             for k, rr in enumerate(runs):
                 ps = rr[0]
